@@ -9,8 +9,13 @@
 //                               object → InitHash; px.New positional and named (each unless ambiguous) → ReflectTo → DeepEqual
 //       out = <init hash> [| pos=ok back=<go-value> eq=<t|f> | pos=reported CODE] [| named=…]
 // ops (implementation only, labelled tests — no model counterpart):
-//   @obj <struct-type> <go-value>  register every struct type bottom-up with TypeFromReflect (named T::S<i>), wrap the
-//                               struct → object; derived type accepts it; ReflectTo back; px.New(type, InitHash) → ReflectTo
+//   @refl / @obj on types with nested structs, bare interface{} fields …: as above, every struct type registered bottom-up
+//                               with TypeFromReflect under the names T::S<i>
+//   @reflraw <go-type> <go-value>   refl without registering the struct types (an unknown struct wraps to a Hash)
+//   @reflanon <go-type> <go-value>  px.WrapReflectedType first (anonymous object types), then refl without registration
+//   obj construction forms: pos (all attribute values), postrim (without the trailing values that equal their default),
+//                               named (InitHash), full (hash with every attribute); a form is skipped when a single Hash
+//                               argument would be ambiguous
 //
 // go-type  ::= (int W) | (uint W) | (float 32|64) | string | bool | iface | (slice T) | (map K V) | (ptr T)
 //            | (array N T) | (struct (Name T [xTAG])…)          W ∈ {0,8,16,32,64}; 0 = int / uint
@@ -50,6 +55,7 @@ type gfield struct {
 	name string
 	t    *gty
 	tag  string
+	dflt string // generator only: the go-value term of the default declared in the tag ("" = none)
 }
 
 type gty struct {
@@ -613,6 +619,25 @@ func exec(c px.Context, op string, args []sx.Sexp) (r core.Result) {
 			r = refl(fc, tyOf(args[0]), args[1], true)
 		case "reflraw":
 			r = refl(fc, tyOf(args[0]), args[1], false)
+		case "reflanon":
+			// anonymous object types: the type is derived (and thereby registered, without a name) before the value is wrapped
+			t := tyOf(args[0])
+			if k, text := safely(func() {
+				if _, err := px.WrapReflectedType(fc, t.rtype()); err != nil {
+					panic(err)
+				}
+			}); k != "" {
+				cl := "fault"
+				if strings.Contains(text, "already present in the implementation registry") && nestedStruct(t, false) {
+					cl = "anon-struct-nested"
+				}
+				r = core.Result{Out: "derive=" + k, Pred: oneLine("FAIL " + cl + " derive type: " + text), NonTrivial: true}
+				if notReflectable(t) != "" {
+					r.Pred = "n/a"
+				}
+				return
+			}
+			r = refl(fc, t, args[1], false)
 		case "obj":
 			r = obj(fc, tyOf(args[0]), args[1])
 		}
@@ -671,7 +696,14 @@ func refl(c px.Context, t *gty, ve sx.Sexp, register bool) core.Result {
 	})
 	ws, ts := wk, tk
 	if wk == "" {
-		ws = encVal(wrapped)
+		// an instance of an anonymous object type (derived by WrapReflectedType, never resolved) faults when it is used
+		if k, text := safely(func() { ws = encVal(wrapped) }); k != "" {
+			out := "use=" + k
+			if !register && t.has("struct") && notReflectable(t) == "" {
+				return res(out, "FAIL anon-struct-unresolved InitHash of the wrapped value: "+text)
+			}
+			return res(out, "FAIL fault using the wrapped value: "+text)
+		}
 	}
 	if tk == "" {
 		ts = encTy(pt)
@@ -1044,11 +1076,28 @@ func obj(c px.Context, t *gty, ve sx.Sexp) core.Result {
 		tags = append(tags, "pos-ambiguous")
 	}
 	attrs := ot.AttributesInfo().Attributes()
+	// fewer positional arguments: the trailing ones that equal their attribute's default are left out
+	trim := pos
+	for n := len(trim); n > 0 && attrs[n-1].Default(trim[n-1]); n-- {
+		trim = trim[:n-1]
+	}
+	if len(trim) < len(pos) {
+		if _, isHash := pos0(trim).(*types.Hash); !(len(trim) == 1 && isHash) {
+			variants = append(variants, trim)
+			names = append(names, "postrim")
+			tags = append(tags, "trimmed-defaults")
+		}
+	}
 	if len(attrs) == 0 || !px.IsInstance(attrs[0].Type(), ih) {
 		variants = append(variants, []px.Value{ih})
 		names = append(names, "named")
 	} else {
 		tags = append(tags, "named-ambiguous")
+	}
+	// the hash with every attribute given (nothing omitted)
+	if full := fullHash(attrs, pos); !full.Equals(ih, nil) && (len(attrs) == 0 || !px.IsInstance(attrs[0].Type(), full)) {
+		variants = append(variants, []px.Value{full})
+		names = append(names, "full")
 	}
 	na := notReflectable(t) != "" || hasNaN(t, gv)
 	pred := "ok"
@@ -1103,8 +1152,28 @@ func flatStruct(t *gty) bool {
 		if f.t.has("struct") || f.t.kind == "iface" || notReflectable(f.t) != "" {
 			return false
 		}
+		if strings.Contains(f.tag, "value=>") {
+			// modelled declared defaults: integers, strings, booleans (and pointers to them)
+			b := f.t
+			if b.kind == "ptr" {
+				b = b.elem
+			}
+			switch b.kind {
+			case "int", "uint", "string", "bool":
+			default:
+				return false
+			}
+		}
 	}
 	return true
+}
+
+func fullHash(attrs []px.Attribute, pos []px.Value) px.OrderedMap {
+	es := make([]*types.HashEntry, len(attrs))
+	for i, a := range attrs {
+		es[i] = types.WrapHashEntry2(a.Name(), pos[i])
+	}
+	return types.WrapHash(es)
 }
 
 func pos0(vs []px.Value) px.Value {
@@ -1278,11 +1347,51 @@ func genVal(r *rand.Rand, t *gty, mode int, depth int) string {
 		}
 		return "(p " + genVal(r, t.elem, mode, depth+1) + ")"
 	}
+	// mode 5: every field with a declared default is at that default, every other pointer is nil (the trailing
+	// attributes of the instance are all at their defaults), the remaining fields are boundary-heavy
 	xs := []string{"st"}
 	for _, f := range t.fields {
-		xs = append(xs, genVal(r, f.t, mode, depth+1))
+		switch {
+		case f.dflt != "" && (mode == 5 || (mode >= 3 && r.Intn(2) == 0)):
+			xs = append(xs, f.dflt)
+		case mode == 5 && f.t.kind == "ptr":
+			xs = append(xs, "nil")
+		case mode == 5:
+			xs = append(xs, genVal(r, f.t, 3, depth+1))
+		default:
+			xs = append(xs, genVal(r, f.t, mode, depth+1))
+		}
 	}
 	return "(" + strings.Join(xs, " ") + ")"
+}
+
+// tagDefault picks a default that can be declared in a tag for a field of type t: (literal, go-value term); the
+// default differs from the Go zero value.  Only integers, strings, booleans and pointers to them.
+func tagDefault(r *rand.Rand, t *gty) (lit string, term string) {
+	switch t.kind {
+	case "int":
+		c := []string{"8", "42", "-7", "100", "-128"}
+		x := c[r.Intn(len(c))]
+		return x, x
+	case "uint":
+		c := []string{"8", "200", "255"}
+		if bits(t.w) >= 16 {
+			c = append(c, "8080", "65535")
+		}
+		x := c[r.Intn(len(c))]
+		return x, x
+	case "string":
+		c := []string{"none", "x1", "a b"}
+		x := c[r.Intn(len(c))]
+		return "'" + x + "'", sx.Str(x).Atom
+	case "bool":
+		return "true", "t"
+	case "ptr":
+		if l, tm := tagDefault(r, t.elem); l != "" {
+			return l, "(p " + tm + ")"
+		}
+	}
+	return "", ""
 }
 
 func randScalar(r *rand.Rand, t *gty) string {
@@ -1368,6 +1477,9 @@ func gen(g *core.G) {
 			if nraw++; nraw%10 == 0 {
 				g.Emit("@reflraw " + t.sexp().String() + " " + v)
 			}
+			if nraw%4 == 1 {
+				g.Emit("@reflanon " + t.sexp().String() + " " + v)
+			}
 			return
 		}
 		g.Emit("refl " + t.sexp().String() + " " + v)
@@ -1387,6 +1499,19 @@ func gen(g *core.G) {
 			if !seen[ts+v] {
 				seen[ts+v] = true
 				emit(t, v)
+			}
+		}
+		hasDflt := false
+		for _, f := range t.fields {
+			hasDflt = hasDflt || f.dflt != ""
+		}
+		if hasDflt {
+			for i := 0; i < 3; i++ {
+				v := genVal(g.Rng, t, 5, 0)
+				if !seen[ts+v] {
+					seen[ts+v] = true
+					emit(t, v)
+				}
 			}
 		}
 	}
@@ -1449,8 +1574,26 @@ func gen(g *core.G) {
 		n := 1 + g.Rng.Intn(4)
 		for j := 0; j < n; j++ {
 			f := gfield{name: string(rune('A' + j)), t: randType(g.Rng, g.Rng.Intn(depth), j == 1)}
+			if i%2 == 1 && g.Rng.Intn(2) == 0 {
+				// every other struct: fields whose type can carry a declared default
+				ls := []*gty{{kind: "int", w: widths[g.Rng.Intn(5)]}, {kind: "uint", w: widths[g.Rng.Intn(5)]}, {kind: "string"}, {kind: "bool"}}
+				f.t = ls[g.Rng.Intn(len(ls))]
+				if g.Rng.Intn(3) == 0 {
+					f.t = &gty{kind: "ptr", elem: f.t}
+				}
+			}
+			parts := []string{}
 			if g.Rng.Intn(4) == 0 {
-				f.tag = "puppet:\"name=>'f_" + strings.ToLower(f.name) + "'\""
+				parts = append(parts, "name=>'f_"+strings.ToLower(f.name)+"'")
+			}
+			if i%2 == 1 && g.Rng.Intn(2) == 0 {
+				if lit, term := tagDefault(g.Rng, f.t); lit != "" {
+					parts = append(parts, "value=>"+lit)
+					f.dflt = term
+				}
+			}
+			if len(parts) > 0 {
+				f.tag = "puppet:\"" + strings.Join(parts, ", ") + "\""
 			}
 			t.fields = append(t.fields, f)
 		}
